@@ -406,7 +406,7 @@ fn opts_strategy() -> impl Strategy<Value = Opts> + Clone {
     (
         prop_oneof![6 => Just(Via::Options), 1 => Just(Via::FileOpen), 2 => Just(Via::FileCreate)],
         (proptest::bool::weighted(0.75), proptest::bool::weighted(0.75), proptest::bool::weighted(0.6), proptest::bool::weighted(0.2), proptest::bool::weighted(0.15)),
-        prop_oneof![8 => Just(Custom::None), 2 => Just(Custom::Append), 1 => Just(Custom::NoFollow), 1 => Just(Custom::Directory)],
+        prop_oneof![8 => Just(Custom::None), 2 => Just(Custom::Append), 1 => Just(Custom::NoFollow), 1 => Just(Custom::Directory), 1 => Just(Custom::AccWrOnly), 1 => Just(Custom::AccRdWr), 1 => Just(Custom::AccRdWrAppend)],
         proptest::option::weighted(0.3, prop_oneof![Just(0o600u16), Just(0o644), Just(0o444), Just(0o000), Just(0o755), Just(0o777)]),
     )
         .prop_map(|(via, (read, write, create, truncate, create_new), custom, mode)| Opts { via, read, write, create, truncate, create_new, custom, mode })
@@ -486,7 +486,7 @@ fn main() {
         "C08",
         "programs",
         "case = program of 1-25 steps over one temp directory (12 relative names, <=4 open files, <=2 anonymous pipes): open/create with generated \
-         OpenOptions (read/write/create/truncate/create_new, O_APPEND/O_NOFOLLOW/O_DIRECTORY, mode; File::open/create), close, read_at/write_at with \
+         OpenOptions (read/write/create/truncate/create_new, O_APPEND/O_NOFOLLOW/O_DIRECTORY and access-mode bits in custom_flags, mode; File::open/create), close, read_at/write_at with \
          buffer shapes Vec len<cap / len=cap / len=0, [u8;24], ArrayVec, Slice(begin..end|begin..), Uninit (spare capacity only), sizes 0..48 and 3-9 KiB, \
          read_vectored_at/write_vectored_at over Vec<Vec<u8>>/[Vec<u8>;2]/[Vec<u8>;3] with 0-5 members incl. empty ones, offsets 0..120, 65000+x and \
          i64::MAX/2^63/u64::MAX-1/u64::MAX, set_len, sync_all/sync_data, metadata, set_permissions (handle and path), create_dir(_all), remove_file/dir, \
